@@ -405,12 +405,19 @@ def _tg_param(w, o):
 def _new_param(w, o):
     a = [o["value"]]
     kw = {}
-    if o.get("bounds") is not None:
-        kw["bounds"] = o["bounds"]
+    blist = None
+    if o.get("bounds_from") is not None and w.has("p", o["bounds_from"]) \
+            and w.m("p", o["bounds_from"]).get("bounds_obj") is not None:
+        # the very same list object another Parameter was created with
+        blist = w.m("p", o["bounds_from"])["bounds_obj"]
+        kw["bounds"] = blist
+    elif o.get("bounds") is not None:
+        blist = list(o["bounds"])
+        kw["bounds"] = blist
     if o.get("label") is not None:
         kw["label"] = o["label"]
     p = w.call(lw.Parameter, *a, **kw)
-    w.put("p", o["out"], p, role=o.get("role", "phi"))
+    w.put("p", o["out"], p, role=o.get("role", "phi"), bounds_obj=blist)
 
 
 @op("param_set", tg=_tg_param)
@@ -762,6 +769,15 @@ def _cons_set(w, o):
         meta["src"] = o.get("ref")
     if attr == "detector":
         meta["det"] = o.get("ref")
+
+
+@op("cons_component_set")
+def _cons_component_set(w, o):
+    """In-place edit of the source / detector a consumer carries, reached
+    through the consumer (also when it is the consumer's own default one)."""
+    s = w.get(o["kind"], o["s"])
+    comp = w.call(getattr, s, o["comp"])
+    w.call(setattr, comp, o["attr"], o["value"])
 
 
 def dist_summary(d: dict) -> list:
